@@ -157,18 +157,19 @@ theorem output_valid {P : Params K} (hs : SqrtSpec P.sqrt) (hP : ParamsOK P) (hn
     · intro i j; rw [hv.X]; exact hinv.symm i j
     · intro i j; rw [hv.X, hv.rs]; exact hv.T i j
 
-/-- **Termination with a model or a warning (full statement, over ℝ).**  With the source as
-it is, this is false: see `returns_counterexample`. -/
+/-- **Termination with a model or a warning (full statement, over ℝ)**, for the
+`warnings.warn` call site as the translator read it from the source.  Proved below as
+`returns` (the call site is in its repaired form). -/
 def C12_returns_full : Prop :=
   ∀ (n : Nat) (P : Params ℝ) (C : Mat ℝ n), P.sqrt = Real.sqrt → ParamsOK P → 0 < n →
     0 < P.maxIter → P.warnSwapped = Ens.Generated.MleSite.warnSwappedPy →
     (∀ i j, 0 ≤ mget C i j) → Conn C → ∃ r, run P C = .ok r
 
-/-- What holds for the code as it is (any field): the estimator never ends in an assertion
-failure; it returns a model, except that when the last permitted sweep was used and the
-`warnings.warn` call has its arguments swapped it ends in `TypeError` (known finding
-`convergence-warning-typeerror`).  If the call site is repaired (`warnSwapped = false`) it
-always returns a model, flagged `warned` when the cap was reached. -/
+/-- For an arbitrary state of the call site (any field): the estimator never ends in an
+assertion failure; it returns a model, except that when the last permitted sweep was used and
+the `warnings.warn` call has its arguments swapped it ends in `TypeError`.  With the call site
+in its repaired form (`warnSwapped = false`) it always returns a model, flagged `warned` when
+the cap was reached. -/
 theorem returns_partial {P : Params K} (hs : SqrtSpec P.sqrt) (hP : ParamsOK P) (hn : 0 < n)
     (hmax : 0 < P.maxIter) {C : Mat K n} (hC : ∀ i j, 0 ≤ mget C i j) (hc : Conn C) :
     run P C ≠ .error .assertion ∧ run P C ≠ .error .unbound ∧
@@ -259,11 +260,41 @@ example (k : Nat) : ∃ Crs st0 st, init ones2 = .ok (Crs, st0) ∧
     ones2_conn h k
   exact ⟨Crs, st0, st, h, h1, h2⟩
 
-/-- With the call site as generated from the source (`warnSwappedPy = true` on the unchanged
-tree) the full statement fails: `max_iter = 1` on the all-ones 2×2 matrix uses the last
-permitted sweep and ends in `TypeError`.  (The harness reproduces it on the real code.) -/
-theorem returns_counterexample (hsite : Ens.Generated.MleSite.warnSwappedPy = true) :
-    ¬ C12_returns_full := by
+/-- the two `warnings.warn` call sites the translator read are in their repaired form
+(message first, category second).  If the source regresses, the regenerated
+`Model.Generated.MleSite` makes this fail. -/
+theorem site_is_fixed :
+    Ens.Generated.MleSite.warnSwappedPy = false ∧ Ens.Generated.MleSite.warnSwappedPyx = false := by
+  decide
+
+/-- **Full statement, for the code as it is**: on every non-negative count matrix in which each
+state has outgoing and incoming off-diagonal counts (implied by strong connectivity with ≥ 2
+states, `conn_of_strongly_connected`) the estimator returns a model — valid by `output_valid`,
+and flagged `warned` when the iteration cap was reached. -/
+theorem returns : C12_returns_full := by
+  intro n P C hsqrt hP hn hmax hsite hC hc
+  have hs : SqrtSpec P.sqrt := by rw [hsqrt]; exact real_sqrt_spec
+  exact (returns_partial hs hP hn hmax hC hc).2.2.1 (by rw [hsite]; exact site_is_fixed.1)
+
+/-- the same for both implementations' call sites and any linear ordered field with a square
+root: with `warnSwapped` equal to either generated flag, `run` returns a model -/
+theorem returns_any_field {K : Type} [Field K] [LinearOrder K] [IsStrictOrderedRing K] {n : Nat}
+    {P : Params K} (hs : SqrtSpec P.sqrt) (hP : ParamsOK P) (hn : 0 < n) (hmax : 0 < P.maxIter)
+    (hsite : P.warnSwapped = Ens.Generated.MleSite.warnSwappedPy ∨
+             P.warnSwapped = Ens.Generated.MleSite.warnSwappedPyx)
+    {C : Mat K n} (hC : ∀ i j, 0 ≤ mget C i j) (hc : Conn C) : ∃ r, run P C = .ok r := by
+  apply (returns_partial hs hP hn hmax hC hc).2.2.1
+  rcases hsite with h | h
+  · rw [h]; exact site_is_fixed.1
+  · rw [h]; exact site_is_fixed.2
+
+/-- about the *old* call site (`warnSwapped = true`, before the `fix:` commit) only: there
+`max_iter = 1` on the all-ones 2×2 matrix used the last permitted sweep and ended in
+`TypeError` instead of a model plus warning -/
+theorem returns_old_source_counterexample :
+    ¬ ∀ (n : Nat) (P : Params ℝ) (C : Mat ℝ n), P.sqrt = Real.sqrt → ParamsOK P → 0 < n →
+        0 < P.maxIter → P.warnSwapped = true →
+        (∀ i j, 0 ≤ mget C i j) → Conn C → ∃ r, run P C = .ok r := by
   intro hfull
   let P : Params ℝ :=
     { sqrt := Real.sqrt
@@ -271,7 +302,7 @@ theorem returns_counterexample (hsite : Ens.Generated.MleSite.warnSwappedPy = tr
       tol := 0
       maxIter := 1
       impl := Impl.py
-      warnSwapped := Ens.Generated.MleSite.warnSwappedPy
+      warnSwapped := true
       rowAtol := 0
       rowRtol := 0
       piCheck := PiCheck.isclose 0 0 }
@@ -283,7 +314,7 @@ theorem returns_counterexample (hsite : Ens.Generated.MleSite.warnSwappedPy = tr
   · rw [herr] at hr; cases hr
   · apply hne
     have hk1 : k + 1 ≤ 1 := hk
-    exact ⟨by show k + 1 = 1; omega, hsite⟩
+    exact ⟨by show k + 1 = 1; omega, rfl⟩
 
 /-! ### optimality — stated, not proved -/
 
